@@ -124,6 +124,10 @@ func (v *Verifier) evalCall(fr *Frame, st *State, x *ast.CallExpr) Val {
 			if fr.old == nil {
 				panic(unsupportedf(x.Pos(), "old() outside a postcondition/invariant"))
 			}
+			// locals that did not exist at entry keep their current value inside old(...)
+			saveCur := fr.oldCur
+			fr.oldCur = st
+			defer func() { fr.oldCur = saveCur }()
 			return v.evalSpec(fr, fr.old, x.Args[0])
 		case "ite":
 			cond := v.asBool(v.evalSpec(fr, st, x.Args[0]), x.Pos())
